@@ -324,7 +324,7 @@ func (fr *Frame) assign(s *State, lhs ast.Expr, v *Val, pos token.Pos) {
 			v = fr.convertTo(s, v, u.Elem())
 			hn, hs := fr.eng.elemHeap(u.Elem())
 			h := s.heap(hn, hs)
-			s.setHeap(hn, hs, fmt.Sprintf("(store %s (sl_ref %s) (store (select %s (sl_ref %s)) (ix (sl_off %s) %s) %s))", h, base.S, h, base.S, base.S, idx.S, v.S))
+			s.setHeap(hn, hs, fmt.Sprintf("(store %s (sl_ref %s) (store (select %s (sl_ref %s)) %s %s))", h, base.S, h, base.S, elemAddr(base, idx.S), v.S))
 			return
 		case *types.Array:
 			base := fr.eval(s, x.X)
